@@ -1165,6 +1165,44 @@ fn self_value_reference(input: &Input) -> bool {
     })
 }
 
+/// does the input contain a field access inside a string interpolation?
+fn field_access_in_interpolation(input: &Input) -> bool {
+    fn has_field(e: &E) -> bool {
+        match e {
+            E::Field(..) => true,
+            E::Num(_) | E::Bool(_) | E::Var(_) => false,
+            E::Str(ps) => ps.iter().any(|p| matches!(p, Part::Interp(e) if has_field(e))),
+            E::Neg(a) | E::Not(a) | E::Fact(a) => has_field(a),
+            E::Bin(_, a, b) => has_field(a) || has_field(b),
+            E::If(a, b, c) => has_field(a) || has_field(b) || has_field(c),
+            E::Call(_, args) => args.iter().any(has_field),
+            E::Pipe(x, _, args) => has_field(x) || args.iter().any(has_field),
+            E::CallE(c, args) => has_field(c) || args.iter().any(has_field),
+            E::Mk(_, fs) => fs.iter().any(|(_, e)| has_field(e)),
+            E::List(es) => es.iter().any(has_field),
+        }
+    }
+    fn walk(e: &E) -> bool {
+        match e {
+            E::Str(ps) => ps.iter().any(|p| matches!(p, Part::Interp(e) if has_field(e) || walk(e))),
+            E::Num(_) | E::Bool(_) | E::Var(_) => false,
+            E::Neg(a) | E::Not(a) | E::Fact(a) | E::Field(a, _) => walk(a),
+            E::Bin(_, a, b) => walk(a) || walk(b),
+            E::If(a, b, c) => walk(a) || walk(b) || walk(c),
+            E::Call(_, args) => args.iter().any(walk),
+            E::Pipe(x, _, args) => walk(x) || args.iter().any(walk),
+            E::CallE(c, args) => walk(c) || args.iter().any(walk),
+            E::Mk(_, fs) => fs.iter().any(|(_, e)| walk(e)),
+            E::List(es) => es.iter().any(walk),
+        }
+    }
+    input.iter().any(|s| match s {
+        S::Expr(e) | S::Let(_, _, e) | S::Print(e) | S::Assert(e) => walk(e),
+        S::Fn(d) => walk(&d.body) || d.wheres.iter().any(|(_, e)| walk(e)),
+        _ => false,
+    })
+}
+
 fn expect_text(r: &Result<Expect, OErr>, st: &OState) -> String {
     match r {
         Ok(Expect::Value(v)) => format!("value {}", v_canon(v, st)),
@@ -1320,7 +1358,16 @@ impl Runner {
         let norm = |t: String| t.replace("(n 8000000000000000)", "(n 0000000000000000)");
         let want = norm(expect_text(&orun.result, &trial));
         let got = norm(outcome_text(&outcome));
-        let mut agree = want == got && orun.out == out;
+        // the values of the globals are part of what the input computed (a `let` shows no value by itself)
+        let impl_globals: Vec<String> = if panicked {
+            vec![]
+        } else {
+            ctx.verif_c09_bytecode().vm.stack.iter().map(|v| norm(hook::value_canon(v))).collect()
+        };
+        let globals_of = |st: &OState| -> Vec<String> { st.globals.iter().map(|(_, v)| norm(v_canon(v, st))).collect() };
+        let succeeded = matches!(outcome, ImplOutcome::Value(_) | ImplOutcome::Continue);
+        let state_ok = |st: &OState| !succeeded || globals_of(st) == impl_globals;
+        let mut agree = want == got && orun.out == out && state_ok(&trial);
         if !agree && want.starts_with("error") && got.starts_with("error") && orun.out == out {
             // the language leaves the evaluation order of struct fields open: another order may meet
             // another error first
@@ -1333,9 +1380,12 @@ impl Runner {
         }
         if !agree {
             let late_text = norm(expect_text(&late.result, &t3));
-            let explained_by_late =
-                (late_text == got && late.out == out) || (matches!(late.result, Err(OErr::Stuck(_))) && panicked);
-            let what = format!(
+            let explained_by_late = (late_text == got && late.out == out && state_ok(&t3))
+                || (matches!(late.result, Err(OErr::Stuck(_))) && panicked)
+                // a function value bound late to a function compiled further down, whose globals do not
+                // exist yet: the implementation reads whatever lies in those stack slots
+                || matches!(&late.result, Err(OErr::Stuck(w)) if w.contains("before its globals exist"));
+            let mut what = format!(
                 "input `{}`: implementation gives {} {:?}, evaluation of the source gives {} {:?}",
                 src.replace('\n', " ⏎ "),
                 pretty_outcome(&outcome),
@@ -1343,15 +1393,29 @@ impl Runner {
                 pretty_expect(&orun.result, &trial),
                 orun.out
             );
+            if want == got && orun.out == out {
+                what.push_str(&format!(
+                    "; the globals differ: implementation {:?}, evaluation of the source {:?}",
+                    impl_globals,
+                    globals_of(&trial)
+                ));
+            }
             let key = if panicked
                 && self_value_reference(input)
                 && matches!(&outcome, ImplOutcome::Panic(p) if p.contains("Unknown identifier"))
             {
                 "fn-self-value-panic"
+            } else if panicked
+                && field_access_in_interpolation(input)
+                && matches!(&outcome, ImplOutcome::Panic(p) if p.contains("Field access of non-struct type"))
+            {
+                "interp-field-access-panic"
             } else if explained_by_late {
                 "fnvalue-late-binding"
             } else if panicked {
                 "panic"
+            } else if want == got && orun.out == out {
+                "globals-mismatch"
             } else if orun.out != out {
                 "output-mismatch"
             } else if want.starts_with("error") || got.starts_with("error") {
